@@ -302,45 +302,43 @@ func ocJSON(recs []ocRec) []byte {
 	return []byte(`{"data":[` + strings.Join(parts, ",") + `]}`)
 }
 
-// decodePkixName as the library does it (base64, asn1 RDNSequence, FillFromRDNSequence): raw DER and Name.String()
-func decodeName(s string) (raw []byte, str string, ok bool) {
-	raw, err := base64.StdEncoding.DecodeString(s)
-	if err != nil {
-		return nil, "", false
-	}
-	var rdn pkix.RDNSequence
-	if _, err := asn1.Unmarshal(raw, &rdn); err != nil {
-		return nil, "", false
-	}
-	n := new(pkix.Name)
-	n.FillFromRDNSequence(&rdn)
-	return raw, n.String(), true
-}
-
-func dec(b []byte, ok bool) string {
-	if !ok {
-		return "!"
-	}
-	return hx(b)
-}
-
-// the decoded-record argument for the model
+// the decoded-record argument for the model: the four JSON string fields as encoding/json delivered them
 func ocRecArg(r ocRec) string {
 	if r.null {
 		return "N"
 	}
-	b2 := func(b bool) string {
-		if b {
-			return "1"
+	return hx([]byte(r.subject)) + "/" + hx([]byte(r.pubKeyHash)) + "/" + hx([]byte(r.serialNumber)) + "/" + hx([]byte(r.issuerName))
+}
+
+// the ASN.1 name table for the model: every byte string the entries' subject / issuerName fields base64-decode to,
+// with what asn1.Unmarshal (RDNSequence) + FillFromRDNSequence + Name.String() make of it
+func ocNTbl(recs []ocRec) string {
+	seen := map[string]bool{}
+	var out []string
+	for _, r := range recs {
+		if r.null {
+			continue
 		}
-		return "0"
+		for _, f := range []string{r.subject, r.issuerName} {
+			raw, err := base64.StdEncoding.DecodeString(f)
+			if err != nil || seen[string(raw)] {
+				continue
+			}
+			seen[string(raw)] = true
+			var rdn pkix.RDNSequence
+			if _, err := asn1.Unmarshal(raw, &rdn); err != nil {
+				out = append(out, hx(raw)+"=!")
+				continue
+			}
+			n := new(pkix.Name)
+			n.FillFromRDNSequence(&rdn)
+			out = append(out, hx(raw)+"="+hx([]byte(n.String())))
+		}
 	}
-	sraw, _, sok := decodeName(r.subject)
-	pk, perr := base64.StdEncoding.DecodeString(r.pubKeyHash)
-	sb, _ := base64.StdEncoding.DecodeString(r.serialNumber)
-	_, istr, iok := decodeName(r.issuerName)
-	return fmt.Sprintf("%s/%s/%s/%s/%s/%s", b2(r.subject != ""), b2(r.pubKeyHash != ""), dec(sraw, sok), dec(pk, perr == nil),
-		new(big.Int).SetBytes(sb).String(), dec([]byte(istr), iok))
+	if len(out) == 0 {
+		return "~"
+	}
+	return strings.Join(out, ",")
 }
 
 func ocRecsArg(recs []ocRec) string {
@@ -501,6 +499,21 @@ func msDump(d *microsoft.DisallowedCerts) map[string][]*big.Int {
 	return m
 }
 
+// error kind of a failed Parse as an evidence tag (which reject branch of the real code a case reached)
+func errTag(err error) string {
+	if err == nil {
+		return "err=nil-result"
+	}
+	s := err.Error()
+	if i := strings.Index(s, ":"); i > 0 {
+		s = s[:i]
+	}
+	if len(s) > 48 {
+		s = s[:48]
+	}
+	return "err=" + strings.ReplaceAll(s, " ", "_")
+}
+
 // ---- Exec ----
 
 func exec(line string) zv.Out {
@@ -522,7 +535,7 @@ func exec(line string) zv.Out {
 		}
 		if err != nil || set == nil {
 			out = "err"
-			tags = append(tags, "parse-err")
+			tags = append(tags, "parse-err", errTag(err))
 			if rok {
 				viol = append(viol, fmt.Sprintf("google.Parse rejects a well-formed CRLSet: %v", err))
 			}
@@ -557,17 +570,57 @@ func exec(line string) zv.Out {
 			}
 		}
 		tags = append(tags, "check-"+out[:3], fmt.Sprintf("blocked=%v", blocked))
+	case "b64-dec":
+		// the stdlib decoder the OneCRL fields go through; T3: what it accepts re-encodes to something that decodes
+		// to the same bytes, and the canonical encoding of any byte string is accepted
+		b, err := base64.StdEncoding.DecodeString(string(parseB(f[2])))
+		if err != nil {
+			out = "err " + hx(b)
+			tags = append(tags, "b64-err", fmt.Sprintf("partial=%d", min(len(b), 4)))
+		} else {
+			out = "ok " + hx(b)
+			tags = append(tags, "b64-ok", fmt.Sprintf("len%%3=%d", len(b)%3))
+			if b2, err2 := base64.StdEncoding.DecodeString(base64.StdEncoding.EncodeToString(b)); err2 != nil || !bytes.Equal(b, b2) {
+				viol = append(viol, "base64 decode/encode/decode is not stable")
+			}
+		}
+	case "b64-enc":
+		b := parseB(f[2])
+		e := base64.StdEncoding.EncodeToString(b)
+		out = hx([]byte(e))
+		tags = append(tags, fmt.Sprintf("len%%3=%d", len(b)%3))
+		if b2, err := base64.StdEncoding.DecodeString(e); err != nil || !bytes.Equal(b, b2) {
+			viol = append(viol, "base64 encode/decode does not round-trip")
+		}
+	case "oc-name":
+		// decodePkixName through the verif hook; f[3] = name table (checked against the library here)
+		name := string(parseB(f[2]))
+		if ocNTbl([]ocRec{{issuerName: name}}) != f[3] {
+			panic("case line carries a stale name table")
+		}
+		str, raw, ok := mozilla.ZVDecodePkixName(name)
+		if !ok {
+			out = "err"
+			tags = append(tags, "name-err")
+		} else {
+			out = "ok " + hx([]byte(str)) + " " + hx(raw)
+			tags = append(tags, "name-ok")
+			if b, err := base64.StdEncoding.DecodeString(name); err != nil || !bytes.Equal(b, raw) {
+				viol = append(viol, "decodePkixName returns raw bytes that are not the base64 decoding of the field")
+			}
+		}
 	case "oc-parse", "oc-check":
-		// f[2] = decoded records (for the model), f[3] = hex of the JSON document
-		doc := parseB(f[3])
+		// f[2] = decoded records, f[3] = ASN.1 name table (both for the model), f[4] = hex of the JSON document
+		doc := parseB(f[4])
 		recs, rerr := ocRecsFromDoc(doc)
-		if rerr == nil && ocRecsArg(recs) != f[2] {
+		if rerr == nil && (ocRecsArg(recs) != f[2] || ocNTbl(recs) != f[3]) {
 			panic("case line carries stale decoded records")
 		}
+		f = append(f[:3:3], f[4:]...) // drop the table: the remaining fields keep their former positions
 		c, err := mozilla.Parse(doc)
 		if err != nil || c == nil {
 			out = "err"
-			tags = append(tags, "parse-err")
+			tags = append(tags, "parse-err", errTag(err))
 			break
 		}
 		tags = append(tags, "parse-ok", fmt.Sprintf("blocked=%d", min(len(c.Blocked), 3)), fmt.Sprintf("issuers=%d", min(len(c.IssuerLists), 4)))
@@ -627,7 +680,7 @@ func exec(line string) zv.Out {
 		rc, rok := sstRef(in)
 		if err != nil || d == nil {
 			out = "err"
-			tags = append(tags, "parse-err")
+			tags = append(tags, "parse-err", errTag(err))
 			if rok {
 				viol = append(viol, fmt.Sprintf("microsoft.Parse rejects a well-formed store: %v", err))
 			}
